@@ -65,3 +65,16 @@ FUNCTIONS = [C + ".eval_new_data_categorical_box", C + ".eval_new_data#categoric
 ASSUMPTIONS = ["evaluating the lazy call of a term on a frame (LazyCall.eval, user / library callables) is an opaque deterministic function of "
                "the call object, the frame and the environment, and does not touch the term's remembered levels or contrast matrix "
                "(stateful transforms are write-once: transforms_c)"]
+
+# ---- the intercept: one 1 per row of whatever frame it is evaluated on (C06 / C04) ---------------------------------------------------
+TI = "formulae.terms.terms.Intercept"
+REG.declare_class(TI + "@cols", {"name": "str", "kind": "str", "data": "arr1", "len": "int"})
+REG.contract(TI + ".set_type", self_type=TI + "@cols", params={"data": "frame", "env": "any"}, tags=["C04", "C06"], modifies=["self.len"],
+             ensures=["self.len == data.shape[0]"])
+REG.contract(TI + ".set_data", self_type=TI + "@cols", params={"encoding": "any"}, tags=["C04", "C06"], modifies=["self.data"],
+             requires=["self.len >= 0"],
+             ensures=["self.data.ndim == 1", "self.data.shape[0] == self.len", "forall(0, self.len, lambda r: self.data[r] == 1)"])
+REG.contract(TI + ".eval_new_data", self_type=TI + "@cols", params={"data": "frame"}, returns="arr1", tags=["C04", "C06"],
+             ensures=["result.shape[0] == data.shape[0]", "forall(0, data.shape[0], lambda r: result[r] == 1)",
+                      "self.data == old(self.data)"])
+FUNCTIONS += [TI + ".set_type", TI + ".set_data", TI + ".eval_new_data"]
